@@ -84,39 +84,7 @@ Proof.
   intros k v I. unfold update_imports. now apply fold_assign_lookup.
 Qed.
 
-(* ------------------------------------------------------------------ what the second merge amounts to *)
-Section Resettle.
-  Variable rec : tree -> tree -> tree -> tree.
-  (* per name of the stubs scope: a member moved by the first merge (absent from the runtime scope before it) is merged
-     into itself (settle); a class / module present on both sides: recursively; everything else: unchanged *)
-  Fixpoint resettle_members (sl : list (string * tree)) (oms0 acc : list (string * tree)) : list (string * tree) :=
-    match sl with
-    | [] => acc
-    | (n, sm) :: r =>
-        match lookup n acc, sm with
-        | Some cm, Obj smd _ =>
-            match lookup n oms0 with
-            | None => resettle_members r oms0 (assign n (settle cm) acc)
-            | Some om0 =>
-                match final cm with
-                | Obj cmd cmms =>
-                    if kind_eqb (nkind cmd) (nkind smd) && is_container (nkind cmd)
-                    then resettle_members r oms0 (assign n (retarget cm (rec sm (final om0) (Obj cmd cmms))) acc)
-                    else resettle_members r oms0 acc
-                | _ => resettle_members r oms0 acc
-                end
-            end
-        | _, _ => resettle_members r oms0 acc
-        end
-    end.
-End Resettle.
-
-Fixpoint resettle (s o0 cur : tree) {struct s} : tree :=
-  match s, o0, cur with
-  | Obj sd sms, Obj od oms, Obj cd cms => Obj cd (resettle_members resettle sms oms cms)
-  | _, _, _ => cur
-  end.
-
+(* ------------------------------------------------------------------ the second merge changes nothing *)
 (* stubs are dict-based objects: member names, parameter names, import names, buffer keys are unique, at every depth *)
 Fixpoint wfs (t : tree) : Prop :=
   match t with
@@ -147,12 +115,11 @@ Proof.
 Qed.
 
 (* the state of the runtime member under the name n after the first merge, as far as the second merge cares *)
-Definition merged_state (rec : tree -> tree -> tree -> outcome) (rec' : tree -> tree -> tree -> tree)
-                        (oms0 : list (string * tree)) (n : string) (sm cm : tree) : Prop :=
+Definition merged_state (rec : tree -> tree -> tree -> outcome) (oms0 : list (string * tree)) (n : string) (sm cm : tree) : Prop :=
   match sm with
   | Obj smd _ =>
       match lookup n oms0 with
-      | None => has_dicts cm = true
+      | None => True                                   (* moved by the first merge: skipped *)
       | Some om0 =>
           match final cm with
           | Obj cmd cmms =>
@@ -160,7 +127,7 @@ Definition merged_state (rec : tree -> tree -> tree -> outcome) (rec' : tree -> 
                 match nkind cmd with
                 | KFun => merge_fun cmd smd = cmd
                 | KAttr => merge_attr cmd smd = cmd
-                | _ => rec sm (final om0) (Obj cmd cmms) = Done (rec' sm (final om0) (Obj cmd cmms))
+                | _ => rec sm (final om0) (Obj cmd cmms) = Done (Obj cmd cmms)
                 end
               else True
           | _ => True
@@ -169,38 +136,23 @@ Definition merged_state (rec : tree -> tree -> tree -> outcome) (rec' : tree -> 
   | _ => True
   end.
 
-Lemma remerge_members_resettle : forall rec rec' sl oms0 cms,
-  NoDup (names sl) ->
-  (forall n sm, In (n, sm) sl -> exists cm, lookup n cms = Some cm /\ merged_state rec rec' oms0 n sm cm) ->
-  forall acc, (forall n, In n (names sl) -> lookup n acc = lookup n cms) ->
-  remerge_members rec (fun _ => false) sl oms0 acc = (resettle_members rec' sl oms0 acc, None).
+Lemma remerge_members_id : forall rec sl oms0 acc,
+  (forall n sm, In (n, sm) sl -> exists cm, lookup n acc = Some cm /\ merged_state rec oms0 n sm cm) ->
+  remerge_members rec (fun _ => false) sl oms0 acc = (acc, None).
 Proof.
-  intros rec rec'. induction sl as [|[n sm] r IH]; intros oms0 cms ND H acc AG; [reflexivity|].
-  inversion ND as [|? ? NI ND']; subst.
-  assert (H' : forall n0 sm0, In (n0, sm0) r -> exists cm, lookup n0 cms = Some cm /\ merged_state rec rec' oms0 n0 sm0 cm)
+  intros rec. induction sl as [|[n sm] r IH]; intros oms0 acc H; [reflexivity|].
+  assert (H' : forall n0 sm0, In (n0, sm0) r -> exists cm, lookup n0 acc = Some cm /\ merged_state rec oms0 n0 sm0 cm)
     by (intros; apply H; now right).
-  assert (KEEP : forall acc', (forall k, k <> n -> lookup k acc' = lookup k acc) ->
-            forall k, In k (names r) -> lookup k acc' = lookup k cms).
-  { intros acc' E k Ik. rewrite E; [apply AG; now right|]. intros ->. contradiction. }
-  assert (KEEPA : forall v k, In k (names r) -> lookup k (assign n v acc) = lookup k cms).
-  { intros v. apply KEEP. intros k NE. apply lookup_assign_other; auto. }
-  assert (KEEP0 : forall k, In k (names r) -> lookup k acc = lookup k cms) by (apply KEEP; auto).
-  destruct (H n sm (or_introl eq_refl)) as (cm & L & MS).
-  assert (LA : lookup n acc = Some cm) by (rewrite AG; [exact L|now left]).
+  destruct (H n sm (or_introl eq_refl)) as (cm & LA & MS).
   simpl. rewrite LA.
-  destruct sm as [smd smms|tg rt|tg rt y]; [|apply IH with (cms := cms); auto|apply IH with (cms := cms); auto].
+  destruct sm as [smd smms|tg rt|tg rt y]; [|apply IH; auto|apply IH; auto].
   unfold merged_state in MS.
-  destruct (lookup n oms0) as [om0|].
-  - destruct (final cm) as [cmd cmms|tg rt|tg rt y] eqn:FC; [|apply IH with (cms := cms); auto|apply IH with (cms := cms); auto].
-    destruct (kind_eqb (nkind cmd) (nkind smd)) eqn:K; simpl; [|apply IH with (cms := cms); auto].
-    assert (SAME : assign n (retarget cm (Obj cmd cmms)) acc = acc).
-    { rewrite <- FC, retarget_final. now apply assign_same. }
-    destruct (nkind cmd) eqn:KC; simpl.
-    + rewrite MS. apply IH with (cms := cms); auto.
-    + rewrite MS. apply IH with (cms := cms); auto.
-    + rewrite MS, SAME. apply IH with (cms := cms); auto.
-    + rewrite MS, SAME. apply IH with (cms := cms); auto.
-  - rewrite MS. apply IH with (cms := cms); auto.
+  destruct (lookup n oms0) as [om0|]; [|apply IH; auto].
+  destruct (final cm) as [cmd cmms|tg rt|tg rt y] eqn:FC; [|apply IH; auto|apply IH; auto].
+  destruct (kind_eqb (nkind cmd) (nkind smd)) eqn:K; simpl; [|apply IH; auto].
+  assert (SAME : assign n (retarget cm (Obj cmd cmms)) acc = acc).
+  { rewrite <- FC, retarget_final. now apply assign_same. }
+  destruct (nkind cmd) eqn:KC; simpl; rewrite MS, SAME; apply IH; auto.
 Qed.
 
 Lemma buffered_final_container : forall buf n om d ms,
@@ -226,17 +178,17 @@ Proof.
   intros d ms n m W I. pose proof (wfs_members d ms W) as F. rewrite Forall_forall in F. exact (F (n, m) I).
 Qed.
 
-(* The loader's second merge of a pair that merged before does exactly this: stub-only members, moved into the runtime
-   tree by the first merge, are merged into themselves; nothing else changes, at any depth. *)
-Theorem second_merge_resettles : forall s,
+(* The loader's second merge of a pair that merged before changes NOTHING, at any depth: stub-only members, moved into
+   the runtime tree by the first merge, are skipped (same object on both sides); every field rule is idempotent. *)
+Theorem second_merge_identity : forall s,
   wfs s -> has_dicts s = true -> root_container s = true ->
-  forall o r, merge_obj s o = Done r -> remerge s o r = Done (resettle s o r).
+  forall o r, merge_obj s o = Done r -> remerge s o r = Done r.
 Proof.
   induction s as [tg rt|tg rt x _|sd sms IH] using tree_ind'; intros W HD RC o r M; [discriminate|discriminate|].
   destruct o as [od oms|tg rt|tg rt x]; [|simpl in M; discriminate|simpl in M; discriminate].
   pose proof W as (NDm & _ & NDi & NDb & _).
   destruct (field_table _ _ _ _ _ M NDm NDb) as (rms & -> & _ & T).
-  cbn [remerge resettle].
+  cbn [remerge].
   assert (E : with_imp (with_doc
               (with_imp (with_doc od (merge_doc (ndoc od) (ndoc sd))) (update_imports (nimp od) (nimp sd)))
               (merge_doc (ndoc (with_imp (with_doc od (merge_doc (ndoc od) (ndoc sd))) (update_imports (nimp od) (nimp sd)))) (ndoc sd)))
@@ -244,14 +196,14 @@ Proof.
             = with_imp (with_doc od (merge_doc (ndoc od) (ndoc sd))) (update_imports (nimp od) (nimp sd))).
   { destruct od; unfold with_imp, with_doc; simpl. rewrite merge_doc_idem, (update_imports_idem _ _ NDi). reflexivity. }
   rewrite E. clear E.
-  rewrite (remerge_members_resettle remerge resettle sms oms rms NDm); auto.
+  rewrite (remerge_members_id remerge sms oms rms); auto.
   intros n sm I.
   pose proof (in_lookup_nodup _ _ _ _ NDm I) as LS.
   pose proof (wfs_member _ _ _ _ W I) as Wm.
   pose proof (has_dicts_member _ _ _ _ HD I) as HDm.
   rewrite Forall_forall in IH. specialize (IH (n, sm) I). simpl in IH.
   rewrite (T n). unfold table. rewrite LS. unfold one, merged_state.
-  destruct (lookup n oms) as [om|] eqn:LO; simpl.
+  destruct (lookup n oms) as [om|] eqn:LO; cbn [option_map].
   - eexists; split; [reflexivity|].
     destruct sm as [smd smms|tg rt|tg rt y]; auto.
     set (om1 := buffered (buf_of sd) n om) in *.
@@ -290,257 +242,7 @@ Proof.
     + rewrite F1. trivial.
     + rewrite F1. trivial.
   - eexists; split; [reflexivity|].
-    destruct sm as [smd smms|tg rt|tg rt y]; auto.
-Qed.
-
-(* ------------------------------------------------------------------ idempotence up to buffers, modulo finding C19-F5 *)
-Definition fun_final (t : tree) : bool :=
-  match final t with Obj d _ => kind_eqb (nkind d) KFun | _ => false end.
-
-(* the pending overload groups of a scope name none of its own functions (overloads precede their implementation) *)
-Definition quiet_scope (buf : list (string * list string)) (ms : list (string * tree)) : bool :=
-  forallb (fun e => match snd e with
-                    | [] => true
-                    | _ :: _ => match lookup (fst e) ms with Some m => negb (fun_final m) | None => true end
-                    end) buf.
-
-Fixpoint quiet (t : tree) : bool :=
-  match t with
-  | Obj d ms => (if is_container (nkind d) then quiet_scope (buf_of d) ms else true)
-                && forallb (fun p => quiet (snd p)) ms
-  | _ => true
-  end.
-
-Section QuietMoved.
-  Variable rec : tree -> tree -> bool.
-  Fixpoint quiet_moved_members (sl oms0 : list (string * tree)) : bool :=
-    match sl with
-    | [] => true
-    | (n, sm) :: r =>
-        match sm with
-        | Obj smd _ =>
-            match lookup n oms0 with
-            | None => quiet sm
-            | Some om0 =>
-                match final om0 with
-                | Obj omd omms =>
-                    if kind_eqb (nkind omd) (nkind smd) && is_container (nkind omd) then rec sm (Obj omd omms) else true
-                | _ => true
-                end
-            end
-        | _ => true
-        end && quiet_moved_members r oms0
-    end.
-End QuietMoved.
-
-(* the complement of the gap predicate of C19-F5: every stub-only class / module (at any depth reached by the merge) is quiet *)
-Fixpoint quiet_moved (s o : tree) {struct s} : bool :=
-  match s, o with
-  | Obj sd sms, Obj od oms => quiet_moved_members quiet_moved sms oms
-  | _, _ => true
-  end.
-
-Definition map_snd (f : tree -> tree) (l : list (string * tree)) : list (string * tree) :=
-  map (fun p => (fst p, f (snd p))) l.
-
-Lemma settle_eq : forall d ms,
-  settle (Obj d ms) = if is_container (nkind d)
-                      then Obj (with_ov d (OvDict [])) (apply_buffer (buf_of d) (map_snd settle ms))
-                      else Obj d ms.
-Proof.
-  intros. simpl. destruct (is_container (nkind d)); auto. f_equal. f_equal.
-  induction ms as [|[n m] r IH]; simpl; auto. now rewrite IH.
-Qed.
-
-Lemma erase_eq : forall d ms,
-  erase_buf (Obj d ms) = Obj (match nov d with OvDict _ => with_ov d (OvDict []) | _ => d end) (map_snd erase_buf ms).
-Proof.
-  intros. simpl. f_equal. induction ms as [|[n m] r IH]; simpl; auto. now rewrite IH.
-Qed.
-
-Lemma lookup_map_snd : forall f n l, lookup n (map_snd f l) = option_map f (lookup n l).
-Proof.
-  induction l as [|[k v] r IH]; simpl; auto. destruct (String.eqb k n); auto.
-Qed.
-
-Lemma map_snd_assign : forall f n v l, map_snd f (assign n v l) = assign n (f v) (map_snd f l).
-Proof.
-  induction l as [|[k w] r IH]; simpl; auto. destruct (String.eqb k n); simpl; auto. now rewrite IH.
-Qed.
-
-Lemma apply_buffer_quiet : forall buf l,
-  (forall fn x ovs m, In (fn, x :: ovs) buf -> lookup fn l = Some m -> set_ov m (x :: ovs) = m) ->
-  apply_buffer buf l = l.
-Proof.
-  induction buf as [|[fn ovs] r IH]; simpl; intros l H; auto.
-  destruct ovs as [|x ovs]; [apply IH; intros; eapply H; eauto|].
-  destruct (lookup fn l) as [m|] eqn:L; [|apply IH; intros; eapply H; eauto].
-  rewrite (H fn x ovs m) by auto. rewrite assign_same by auto. apply IH; intros; eapply H; eauto.
-Qed.
-
-Lemma set_ov_not_fun : forall m ovs, fun_final m = false -> set_ov m ovs = m.
-Proof.
-  intros m ovs F. unfold set_ov, fun_final in *. destruct (final m); auto. now rewrite F.
-Qed.
-
-Lemma fun_final_settle : forall m, fun_final (settle m) = fun_final m.
-Proof.
-  intros [d ms|tg rt|tg rt x]; auto. rewrite settle_eq. unfold fun_final.
-  destruct (is_container (nkind d)) eqn:C; auto.
-Qed.
-
-Lemma with_ov_twice : forall d x, with_ov (with_ov d x) x = with_ov d x.
-Proof. destruct d; reflexivity. Qed.
-
-Lemma settle_erase : forall t, quiet t = true -> has_dicts t = true -> erase_buf (settle t) = erase_buf t.
-Proof.
-  induction t as [tg rt|tg rt x _|d ms IH] using tree_ind'; intros Q HD; auto.
-  rewrite settle_eq. destruct (is_container (nkind d)) eqn:C; auto.
-  simpl in Q, HD. rewrite C in Q, HD.
-  apply andb_true_iff in Q. destruct Q as [QS QM]. apply andb_true_iff in HD. destruct HD as [HV HM].
-  rewrite apply_buffer_quiet.
-  - rewrite !erase_eq. destruct (nov d) eqn:NV; try discriminate. simpl. rewrite with_ov_twice. f_equal.
-    rewrite forallb_forall in QM, HM. rewrite Forall_forall in IH.
-    clear - IH QM HM. unfold map_snd. induction ms as [|[n m] r IHr]; simpl; auto.
-    assert (E : erase_buf (settle m) = erase_buf m).
-    { apply (IH (n, m)); [now left|apply (QM (n, m)); now left|apply (HM (n, m)); now left]. }
-    rewrite E. f_equal. apply IHr.
-    + intros x Ix. apply IH. now right.
-    + intros x Ix. apply QM. now right.
-    + intros x Ix. apply HM. now right.
-  - intros fn x ovs m I L. rewrite lookup_map_snd in L.
-    destruct (lookup fn ms) as [m0|] eqn:L0; [|discriminate]. inversion L; subst.
-    apply set_ov_not_fun. rewrite fun_final_settle.
-    unfold quiet_scope in QS. rewrite forallb_forall in QS. specialize (QS _ I). simpl in QS. rewrite L0 in QS.
-    now apply negb_true_iff in QS.
-Qed.
-
-Lemma quiet_set_rt : forall b t, quiet (set_rt b t) = quiet t.
-Proof. intros b [d ms|tg rt|tg rt x]; reflexivity. Qed.
-
-Lemma erase_retarget : forall cm x, erase_buf x = erase_buf (final cm) -> erase_buf (retarget cm x) = erase_buf cm.
-Proof.
-  induction cm as [d ms|tg rt|tg rt y IH]; simpl; intros x E; auto. f_equal. auto.
-Qed.
-
-Lemma erase_ms_assign_same : forall n x cm acc, lookup n acc = Some cm -> erase_buf x = erase_buf cm ->
-  map_snd erase_buf (assign n x acc) = map_snd erase_buf acc.
-Proof.
-  intros. rewrite map_snd_assign. apply assign_same. rewrite lookup_map_snd, H. simpl. now f_equal.
-Qed.
-
-(* what the second merge does to the member under n leaves it unchanged up to buffers *)
-Definition resettle_neutral (rec' : tree -> tree -> tree -> tree) (oms0 : list (string * tree)) (n : string) (sm cm : tree) : Prop :=
-  match sm with
-  | Obj smd _ =>
-      match lookup n oms0 with
-      | None => erase_buf (settle cm) = erase_buf cm
-      | Some om0 =>
-          match final cm with
-          | Obj cmd cmms =>
-              if kind_eqb (nkind cmd) (nkind smd) && is_container (nkind cmd)
-              then erase_buf (rec' sm (final om0) (Obj cmd cmms)) = erase_buf (Obj cmd cmms)
-              else True
-          | _ => True
-          end
-      end
-  | _ => True
-  end.
-
-Lemma resettle_members_erase : forall rec' sl oms0 cms,
-  NoDup (names sl) ->
-  (forall n sm, In (n, sm) sl -> exists cm, lookup n cms = Some cm /\ resettle_neutral rec' oms0 n sm cm) ->
-  forall acc, (forall n, In n (names sl) -> lookup n acc = lookup n cms) ->
-  map_snd erase_buf (resettle_members rec' sl oms0 acc) = map_snd erase_buf acc.
-Proof.
-  intros rec'. induction sl as [|[n sm] r IH]; intros oms0 cms ND H acc AG; [reflexivity|].
-  inversion ND as [|? ? NI ND']; subst.
-  assert (H' : forall n0 sm0, In (n0, sm0) r -> exists cm, lookup n0 cms = Some cm /\ resettle_neutral rec' oms0 n0 sm0 cm)
-    by (intros; apply H; now right).
-  assert (KEEPA : forall v k, In k (names r) -> lookup k (assign n v acc) = lookup k cms).
-  { intros v k Ik. rewrite lookup_assign_other; [apply AG; now right|]. intros ->. contradiction. }
-  assert (KEEP0 : forall k, In k (names r) -> lookup k acc = lookup k cms) by (intros; apply AG; now right).
-  destruct (H n sm (or_introl eq_refl)) as (cm & L & RN).
-  assert (LA : lookup n acc = Some cm) by (rewrite AG; [exact L|now left]).
-  simpl. rewrite LA.
-  destruct sm as [smd smms|tg rt|tg rt y]; [|apply IH with (cms := cms); auto|apply IH with (cms := cms); auto].
-  unfold resettle_neutral in RN.
-  destruct (lookup n oms0) as [om0|].
-  - destruct (final cm) as [cmd cmms|tg rt|tg rt y] eqn:FC; [|apply IH with (cms := cms); auto|apply IH with (cms := cms); auto].
-    destruct (kind_eqb (nkind cmd) (nkind smd) && is_container (nkind cmd)); [|apply IH with (cms := cms); auto].
-    rewrite (IH oms0 cms ND' H' _ (KEEPA _)).
-    eapply erase_ms_assign_same; eauto. apply erase_retarget. now rewrite FC.
-  - rewrite (IH oms0 cms ND' H' _ (KEEPA _)).
-    eapply erase_ms_assign_same; eauto.
-Qed.
-
-Lemma quiet_moved_members_in : forall rec sl oms0 n smd smms,
-  quiet_moved_members rec sl oms0 = true -> In (n, Obj smd smms) sl ->
-  match lookup n oms0 with
-  | None => quiet (Obj smd smms) = true
-  | Some om0 =>
-      match final om0 with
-      | Obj omd omms =>
-          if kind_eqb (nkind omd) (nkind smd) && is_container (nkind omd) then rec (Obj smd smms) (Obj omd omms) = true else True
-      | _ => True
-      end
-  end.
-Proof.
-  induction sl as [|[k sm] r IH]; simpl; intros oms0 n smd smms Q I; [contradiction|].
-  apply andb_true_iff in Q. destruct Q as [Q1 Q2].
-  destruct I as [I|I]; [|apply IH; auto].
-  inversion I; subst. destruct (lookup n oms0) as [om0|]; auto.
-  destruct (final om0); auto. destruct (kind_eqb (nkind d) (nkind smd) && is_container (nkind d)); auto.
-Qed.
-
-(* Unless a stub-only class / module carries a pending overload group for one of its own functions (finding C19-F5),
-   the second merge changes nothing but the bookkeeping dicts. *)
-Theorem second_merge_neutral_modulo_known : forall s,
-  wfs s -> has_dicts s = true -> root_container s = true ->
-  forall o r, merge_obj s o = Done r -> quiet_moved s o = true ->
-  erase_buf (resettle s o r) = erase_buf r.
-Proof.
-  induction s as [tg rt|tg rt x _|sd sms IH] using tree_ind'; intros W HD RC o r M Q; [discriminate|discriminate|].
-  destruct o as [od oms|tg rt|tg rt x]; [|simpl in M; discriminate|simpl in M; discriminate].
-  pose proof W as (NDm & _ & NDi & NDb & _).
-  destruct (field_table _ _ _ _ _ M NDm NDb) as (rms & -> & _ & T).
-  cbn [resettle]. rewrite !erase_eq. f_equal.
-  cbn [quiet_moved] in Q.
-  apply (resettle_members_erase resettle sms oms rms NDm); auto.
-  intros n sm I.
-  pose proof (in_lookup_nodup _ _ _ _ NDm I) as LS.
-  pose proof (wfs_member _ _ _ _ W I) as Wm.
-  pose proof (has_dicts_member _ _ _ _ HD I) as HDm.
-  rewrite Forall_forall in IH. specialize (IH (n, sm) I). simpl in IH.
-  rewrite (T n). unfold table. rewrite LS. unfold one, resettle_neutral.
-  destruct sm as [smd smms|tg rt|tg rt y]; [|destruct (lookup n oms); simpl; eauto|destruct (lookup n oms); simpl; eauto].
-  pose proof (quiet_moved_members_in _ _ _ _ _ _ Q I) as QE.
-  destruct (lookup n oms) as [om|] eqn:LO; cbn [option_map].
-  - eexists; split; [reflexivity|].
-    set (om1 := buffered (buf_of sd) n om) in *.
-    cbn [member_result].
-    destruct (final om1) as [omd omms|tg rt|tg rt y] eqn:F1.
-    + destruct (kind_eqb (nkind omd) (nkind smd)) eqn:K.
-      * destruct (is_container (nkind omd)) eqn:C.
-        -- destruct (buffered_final_container _ _ _ _ _ F1 C) as (FO & _).
-           rewrite FO, K, C in QE. simpl in QE.
-           assert (RCm : root_container (Obj smd smms) = true).
-           { simpl. apply kind_eqb_eq in K. now rewrite <- K. }
-           assert (DKm : dict_ok (Obj smd smms) = true) by (now rewrite <- has_dicts_dict_ok).
-           destruct (never_raises _ DKm RCm omd omms) as (t' & Mt).
-           pose proof Wm as (NDm' & _ & _ & NDb' & _).
-           destruct (scope_level _ _ _ _ _ Mt NDm' NDb') as (rd & rms' & -> & Kr & _).
-           assert (CM : retarget om1 (out_tree (merge_obj (Obj smd smms) (Obj omd omms))) = retarget om1 (Obj rd rms')) by (now rewrite Mt).
-           destruct (nkind omd) eqn:KO; simpl in C; try discriminate; rewrite CM, final_retarget_obj, Kr, K;
-             cbn [andb is_container]; rewrite FO; apply IH; auto.
-        -- destruct (nkind omd) eqn:KO; simpl in C; try discriminate.
-           ++ rewrite final_retarget_obj, merge_fun_kind, KO. now rewrite andb_false_r.
-           ++ rewrite final_retarget_obj. simpl. rewrite KO. now rewrite andb_false_r.
-      * rewrite F1, K. cbn [andb]. trivial.
-    + rewrite F1. trivial.
-    + rewrite F1. trivial.
-  - eexists; split; [reflexivity|].
-    apply settle_erase; [now rewrite quiet_set_rt|now rewrite has_dicts_set_rt].
+    destruct sm as [smd smms|tg rt|tg rt y]; simpl; auto.
 Qed.
 
 (* ------------------------------------------------------------------ the loader: stubs on the package __init__, no stubs submodules *)
@@ -550,16 +252,15 @@ Proof.
   destruct o as [od oms|? ?|? ? ?], cur as [cd cms|? ?|? ? ?]; reflexivity.
 Qed.
 
+(* Idempotence of the loader's double merge: with the stubs on the package __init__ (in the package itself) the loaded
+   module IS the single merge - pending-overloads dicts included. *)
 Theorem load_package_in_package_stubs : forall s,
   wfs s -> has_dicts s = true -> root_container s = true ->
-  forall top r, merge_obj s top = Done r ->
-  load_package2 top s [] = Ok (resettle s top r) /\
-  (quiet_moved s top = true -> erase_buf (resettle s top r) = erase_buf r).
+  forall top r, merge_obj s top = Done r -> load_package2 top s [] = Ok r.
 Proof.
-  intros s W HD RC top r M. split.
-  - unfold load_package2. rewrite M, remerge_top_nil by auto.
-    now rewrite (second_merge_resettles s W HD RC top r M).
-  - intros Q. now apply second_merge_neutral_modulo_known.
+  intros s W HD RC top r M.
+  unfold load_package2. rewrite M, remerge_top_nil by auto.
+  now rewrite (second_merge_identity s W HD RC top r M).
 Qed.
 
 (* ------------------------------------------------------------------ examples *)
@@ -576,32 +277,18 @@ Definition ex5_s_ok : tree :=
 Lemma ex5_wfs : wfs ex5_s /\ wfs ex5_s_ok.
 Proof. split; simpl; repeat split; repeat constructor; simpl; intuition discriminate. Qed.
 
-(* finding C19-F5: the double merge is not idempotent, even up to the bookkeeping dicts *)
-Example double_merge_refuted :
-  exists s o r r2, wfs s /\ has_dicts s = true /\ root_container s = true /\ quiet_moved s o = false /\
-    merge_obj s o = Done r /\ load_package2 o s [] = Ok r2 /\ erase_buf r2 <> erase_buf r /\
-    at_path ["S"; "g"] r = Some ex5_g /\
-    at_path ["S"; "g"] r2 = Some (Obj (with_ov (with_ret (with_params (nd KFun) [("self", None); ("x", Some "float")]) (Some "float"))
-                                               (OvList ["g(self, x: int) -> int"])) []).
+(* repaired finding C19-F5 (/repo 79c2f6a): its witness - a stub-only class with a pending overload group for its own
+   method - now loads to the single merge; so does an ordinary stub-only class, whose pending group stays pending *)
+Example double_merge_examples :
+  wfs ex5_s /\ has_dicts ex5_s = true /\ root_container ex5_s = true /\
+  wfs ex5_s_ok /\ has_dicts ex5_s_ok = true /\ root_container ex5_s_ok = true /\
+  (exists r, merge_obj ex5_s ex5_o = Done r /\ load_package2 ex5_o ex5_s [] = Ok r /\ at_path ["S"; "g"] r = Some ex5_g) /\
+  (exists r, merge_obj ex5_s_ok ex5_o = Done r /\ load_package2 ex5_o ex5_s_ok [] = Ok r /\
+     at_path ["S"] r = Some (set_rt false (ex5_S [("m", ["m(self) -> int"; "m(self, x: int) -> str"])] [("k", ex5_g)]))).
 Proof.
-  exists ex5_s, ex5_o. eexists. eexists.
-  split; [exact (proj1 ex5_wfs)|]. split; [reflexivity|]. split; [reflexivity|]. split; [reflexivity|].
-  split; [vm_compute; reflexivity|]. split; [vm_compute; reflexivity|].
-  split; [vm_compute; discriminate|]. split; vm_compute; reflexivity.
-Qed.
-
-(* the hypotheses of the idempotence theorem are satisfiable, and "up to buffers" is needed: the second merge drains the
-   pending group of the stub-only class *)
-Example double_merge_hypotheses_satisfiable :
-  exists r r2, wfs ex5_s_ok /\ has_dicts ex5_s_ok = true /\ root_container ex5_s_ok = true /\ quiet_moved ex5_s_ok ex5_o = true /\
-    merge_obj ex5_s_ok ex5_o = Done r /\ load_package2 ex5_o ex5_s_ok [] = Ok r2 /\
-    erase_buf r2 = erase_buf r /\ r2 <> r /\
-    at_path ["S"] r2 = Some (set_rt false (ex5_S [] [("k", ex5_g)])).
-Proof.
-  eexists. eexists.
-  split; [exact (proj2 ex5_wfs)|]. split; [reflexivity|]. split; [reflexivity|]. split; [reflexivity|].
-  split; [vm_compute; reflexivity|]. split; [vm_compute; reflexivity|].
-  split; [vm_compute; reflexivity|]. split; [vm_compute; discriminate|]. vm_compute; reflexivity.
+  split; [exact (proj1 ex5_wfs)|]. split; [reflexivity|]. split; [reflexivity|].
+  split; [exact (proj2 ex5_wfs)|]. split; [reflexivity|]. split; [reflexivity|].
+  split; eexists; (split; [vm_compute; reflexivity|]); split; vm_compute; reflexivity.
 Qed.
 
 (* finding C19-F4: in-package stubs of a submodule are merged before the wildcard import of the runtime module is
